@@ -100,6 +100,9 @@ def structural_obligations(rep):
 
 
 def history_part(rep, tier):
+    import os
+    if os.environ.get("VERIF_P_ONLY") == "1":
+        return
     hs = G.histories(tier)
     rep.bounds["construction_histories"] = {"count": len(hs), "exhaustive_up_to_constructions": 3 if tier == "thorough" else 2,
                                             "sample_of_three_step_histories": "every 7th" if tier != "thorough" else "all",
@@ -126,6 +129,7 @@ def run(rep, tier):
     tensors.run_tensor_contracts(rep, ["C13"])        # the stored axis order is the member order after reorder / measure
     from vf.pyvc import kronexec
     kronexec.run_combine(rep)
+    kronexec.run_envelope_combine(rep)
     history_part(rep, tier)
     seed = common.seed()
     sample = (opcells.single_target_cells(tier, seed)[::9] + opcells.multi_target_cells(tier, seed)[::7] + morecells.structural_cells(tier, seed)[::9]
